@@ -23,7 +23,7 @@ def has_cycle(n, edges):
     return any(color[u] == 0 and dfs(u) for u in range(n))
 
 def check(n, lab, missing):
-    """lab[(a,b)] in 0..3: 0 none, 1 dep, 2 merge, 3 weak ; missing: set of (a, kind) references to the absent node 'Z'"""
+    """lab[(a,b)] in 0..4: 0 none, 1 dep, 2 merge, 3 weak, 4 loop_control ; missing: set of (a, kind) references to the absent node 'Z'"""
     names = ['n%d' % i for i in range(n)]
     def build():
         g = {}
@@ -31,12 +31,14 @@ def check(n, lab, missing):
             deps = {names[b] for b in range(n) if lab.get((a, b)) == 1}
             merge = {names[b] for b in range(n) if lab.get((a, b)) == 2}
             weak = {names[b] for b in range(n) if lab.get((a, b)) == 3}
+            ctrl = {names[b] for b in range(n) if lab.get((a, b)) == 4}
             for (x, kind) in missing:
                 if x == a: (deps if kind == 1 else merge if kind == 2 else weak).add('Z')
-            g[names[a]] = T.DepGraphEntry(item=('item', names[a]), deps=deps, merge=merge if merge or any(x == a and k == 2 for x, k in missing) else None, weak_deps=weak)
+            g[names[a]] = T.DepGraphEntry(item=('item', names[a]), deps=deps, merge=merge if merge or any(x == a and k == 2 for x, k in missing) else None, weak_deps=weak, loop_control=ctrl)
         return g
     hard = [(a, b) for (a, b), l in lab.items() if l in (1, 2)]
     weak = [(a, b) for (a, b), l in lab.items() if l == 3]
+    ctrl = [(a, b) for (a, b), l in lab.items() if l == 4]      # loop_control: takes part in cycle detection, does not order
     for allow in (False, True):
         g = build()
         try:
@@ -47,7 +49,7 @@ def check(n, lab, missing):
             if not isinstance(exc, T.UnresolvedReferenceError): return 'expected UnresolvedReferenceError, got %r' % (exc or res,)
             continue
         if isinstance(exc, T.UnresolvedReferenceError): return 'UnresolvedReferenceError although nothing is missing or allow_unresolved'
-        cyc = has_cycle(n, hard)
+        cyc = has_cycle(n, hard + ctrl)
         if cyc:
             if not isinstance(exc, T.CycleError): return 'hard dependencies are cyclic but got %r' % (exc or res,)
             continue
@@ -56,7 +58,7 @@ def check(n, lab, missing):
         posn = {x[1]: i for i, x in enumerate(res)}
         for a, b in hard:
             if posn[names[b]] > posn[names[a]]: return '%s is ordered before its hard dependency %s: %r' % (names[a], names[b], res)
-        if not has_cycle(n, hard + weak):
+        if not has_cycle(n, hard + weak + ctrl):
             for a, b in weak:
                 if posn[names[b]] > posn[names[a]]: return 'soft dependency %s -> %s not honoured although hard+soft is acyclic: %r' % (names[a], names[b], res)
         if not missing:
@@ -72,12 +74,12 @@ def main():
     def go(n, lab, missing):
         res['graphs'] += 1
         f = check(n, lab, missing)
-        if f: res['failure'] = dict(nodes=n, labels={'%d->%d' % k: ['none', 'dep', 'merge', 'weak'][v] for k, v in lab.items() if v}, missing=sorted(missing), problem=f)
+        if f: res['failure'] = dict(nodes=n, labels={'%d->%d' % k: ['none', 'dep', 'merge', 'weak', 'loop_control'][v] for k, v in lab.items() if v}, missing=sorted(missing), problem=f)
         return f
     done = False
     for n in range(1, nmax + 1):
         pairs = [(a, b) for a in range(n) for b in range(n)]
-        for labs in itertools.product(range(4), repeat=len(pairs)):
+        for labs in itertools.product(range(5 if n <= 2 else 4), repeat=len(pairs)):      # (loop_control labels exhaustively up to 2 nodes, randomly beyond)
             if go(n, dict(zip(pairs, labs)), set()): done = True; break
         if done: break
         for a in range(n):
@@ -86,7 +88,7 @@ def main():
     if not done:
         for _ in range(nrand):
             n = rnd.randint(3, nrmax); pairs = [(a, b) for a in range(n) for b in range(n)]
-            lab = {p: rnd.choice([0, 0, 0, 1, 2, 3]) for p in pairs}
+            lab = {p: rnd.choice([0, 0, 0, 0, 1, 2, 3, 3, 4] if rnd.random() < 0.5 else [0, 0, 0, 1, 2, 3]) for p in pairs}
             if go(n, lab, set()): break
     json.dump(res, open(out, 'w'), indent=1)
 
